@@ -442,7 +442,8 @@ def checkC03 (h : History) (obs : List RunObs) : Option String :=
   (List.range obs.length).findSome? fun k =>
     match obs[k]?, h.runs[k]? with
     | some o, some r =>
-      if hasErrorEv o.events || r.opts.dry ≠ .none then none else
+      -- (a run the harness had to abort — a phase that can never end and no timeout configured — did not complete)
+      if hasErrorEv o.events || r.opts.dry ≠ .none || o.anomaly ≠ "" then none else
       let s0 := startSnap h obs k
       let prevInv := s0.inv.getD []
       let es := o.events
